@@ -68,7 +68,7 @@ class GroupingService:
             DataFrame with duplicate values replaced with null
         """
         # Create a mask for rows where the value is different from the previous row
-        is_first_occurrence = (df[column] != df[column].shift(1)) | (
+        is_first_occurrence = df[column].ne_missing(df[column].shift(1)) | (
             pl.int_range(df.height) == 0
         )  # First row is always shown
 
@@ -114,10 +114,10 @@ class GroupingService:
 
             # Higher-level columns changed condition
             for higher_col in group_by[:i]:
-                conditions.append(pl.col(higher_col) != pl.col(higher_col).shift(1))
+                conditions.append(df[higher_col].ne_missing(df[higher_col].shift(1)))
 
             # This column changed condition
-            conditions.append(pl.col(column) != pl.col(column).shift(1))
+            conditions.append(df[column].ne_missing(df[column].shift(1)))
 
             # Combine all conditions with OR
             should_show = conditions[0]
@@ -125,9 +125,7 @@ class GroupingService:
                 should_show = should_show | condition
 
             # Apply suppression
-            suppressed_values = (
-                pl.when(should_show).then(pl.col(column)).otherwise(None)
-            )
+            suppressed_values = pl.when(should_show).then(df[column]).otherwise(None)
             result_df = result_df.with_columns(suppressed_values.alias(column))
 
         return result_df
